@@ -226,6 +226,10 @@ def harness(binary, args, timeout=900, env_extra=None, cwd=None):
         p = subprocess.run([binary] + args, stdout=subprocess.PIPE, stderr=subprocess.PIPE, text=True, timeout=timeout, env=env, cwd=cwd)
     except subprocess.TimeoutExpired:
         raise ToolError("harness timed out: %s" % " ".join(args))
+    if p.returncode < 0 and -p.returncode in (9, 15, 2, 1, 13):
+        # SIGKILL / SIGTERM / SIGINT / SIGHUP / SIGPIPE come from outside the process (out-of-memory killer, an operator):
+        # the run says nothing about the property
+        raise ToolError("harness was killed from outside (signal %d; out of memory?): %s" % (-p.returncode, " ".join(args)))
     if p.returncode < 0:
         progress = None
         if "--progress" in args:
